@@ -125,6 +125,16 @@ def path_name(rng: random.Random) -> str:
         name = '../' * rng.randint(1, 8) + name
     elif r < 0.65:
         name = name.replace('/', '\\')
+    elif r < 0.75:
+        # compatibility characters that a Unicode normalisation (NFKC/NFKD)
+        # or a case folding turns into '.', '..', '/' or ASCII letters
+        name = name.replace('..', rng.choice(
+            ['\u2025', '\u2024\u2024', '\uff0e\uff0e', '\ufe52\ufe52']))
+        name = name.replace('.', rng.choice(['\u2024', '\uff0e', '\ufe52']))
+        if rng.random() < 0.3:
+            name = name.replace('/', '\uff0f')
+        if rng.random() < 0.3:
+            name = name.replace('INBOX', '\uff29\uff2e\uff22\uff2f\uff38')
     return name
 
 
